@@ -225,7 +225,7 @@ impl<'a> StateMachine<'a> {
         if self.config.max_line_length > 0
             && self.raw_line.len() > self.config.max_line_length
             // Do not truncate long hunk headers
-            && !self.raw_line.starts_with("@@")
+            && !ansi::strip_ansi_codes(&self.raw_line).starts_with("@@")
             // Do not truncate ripgrep --json output
             && !self.raw_line.starts_with('{')
         {
